@@ -16,7 +16,6 @@ import (
 	"fmt"
 	"os"
 	"runtime"
-	"sort"
 	"strings"
 	"sync/atomic"
 
@@ -56,7 +55,7 @@ type Op struct {
 }
 
 type Res struct {
-	K     string      `json:"k"` // addr reg unit proc view mat nilpanic bad
+	K     string      `json:"k"`              // addr reg unit proc view mat nilpanic bad
 	Addr  *[2]string  `json:"addr,omitempty"` // addr: nil pointer = nil reference
 	Exist bool        `json:"exist,omitempty"`
 	Proc  *Proc       `json:"proc,omitempty"` // proc: nil = dead letters
@@ -85,11 +84,11 @@ type stub struct {
 	flag atomic.Bool
 }
 
-func (s *stub) Initialize(rc *prc.ResourceController, id *prc.ProcessId)                          {}
+func (s *stub) Initialize(rc *prc.ResourceController, id *prc.ProcessId)                            {}
 func (s *stub) DeliveryUserMessage(receiver, sender, forward *prc.ProcessId, message prc.Message)   {}
 func (s *stub) DeliverySystemMessage(receiver, sender, forward *prc.ProcessId, message prc.Message) {}
-func (s *stub) IsTerminated() bool                                                                { return s.flag.Load() }
-func (s *stub) Terminate(source *prc.ProcessId)                                                   { s.flag.Store(true) }
+func (s *stub) IsTerminated() bool                                                                  { return s.flag.Load() }
+func (s *stub) Terminate(source *prc.ProcessId)                                                     { s.flag.Store(true) }
 
 type env struct {
 	w     World
@@ -310,12 +309,12 @@ func sameProc(a, b *Proc) bool { return a != nil && b != nil && *a == *b }
 // ---------------------------------------------------------------- property monitors (independent of the Coq model)
 
 type stats struct {
-	sweeps, pairs            int
-	sharedDifferent          int // ordered non-nil pairs compared while both caches hold ONE process and the addresses differ
-	equalDifferentState      int // ordered pairs of equal addresses compared in different cache states
-	nilPairs, expEq, expNe   int
-	statePairs               map[string]int
-	viewsAfterCacheChange    int
+	sweeps, pairs          int
+	sharedDifferent        int // ordered non-nil pairs compared while both caches hold ONE process and the addresses differ
+	equalDifferentState    int // ordered pairs of equal addresses compared in different cache states
+	nilPairs, expEq, expNe int
+	statePairs             map[string]int
+	viewsAfterCacheChange  int
 }
 
 func monitor(c *Case) (viol []vh.Violation, st stats) {
@@ -348,13 +347,19 @@ func monitor(c *Case) (viol []vh.Violation, st stats) {
 		}
 		return fmt.Sprintf("%s=(%q,%q)[cache %s: %s]", refName(i), t.addr[i][0], t.addr[i][1], t.state(i), c)
 	}
+	line := func(k int) string {
+		if k < len(c.Script) {
+			return c.Script[k]
+		}
+		return c.Ops[k].K
+	}
 	for k, o := range c.Ops {
 		if k >= len(c.Impl) {
 			break
 		}
 		r := c.Impl[k]
 		if r.K == "bad" {
-			add(o.K, "crash", fmt.Sprintf("op #%d %s: %s", k, c.Script[k], r.Err))
+			add(o.K, "crash", fmt.Sprintf("op #%d %s: %s", k, line(k), r.Err))
 			return
 		}
 		t.feed(o, r)
@@ -367,7 +372,7 @@ func monitor(c *Case) (viol []vh.Violation, st stats) {
 			// a copy of a reference carries the address of its source, whatever the source has cached
 			if r.K == "addr" && o.R < len(t.addr)-1 && t.addr[o.R] != nil && (r.Addr == nil || *r.Addr != *t.addr[o.R]) {
 				add(map[string]string{"clone": "Clone", "proto": "protobuf-round-trip"}[o.K], "differs-from-address",
-					fmt.Sprintf("op #%d %s: source %s, copy carries %v", k, c.Script[k], desc(o.R), r.Addr))
+					fmt.Sprintf("op #%d %s: source %s, copy carries %v", k, line(k), desc(o.R), r.Addr))
 			}
 		case "view":
 			if r.K != "view" || o.R >= len(t.addr) || t.addr[o.R] == nil {
@@ -422,7 +427,7 @@ func monitor(c *Case) (viol []vh.Violation, st stats) {
 								st.sharedDifferent++
 							}
 						}
-						if i <= j {
+						if i < j {
 							a, b := states[i], states[j]
 							if a > b {
 								a, b = b, a
@@ -590,11 +595,11 @@ type builder struct {
 func newBuilder(rng *vh.RNG, res string) *builder {
 	return &builder{c: Case{World: World{Local: local, Res: res}}, rng: rng, reg: map[string]int{}, nstub: 1}
 }
-func (b *builder) op(o Op)    { b.c.Ops = append(b.c.Ops, o) }
-func (b *builder) n() int     { return len(b.node) }
-func (b *builder) sweep()     { b.op(Op{K: "sweep"}) }
+func (b *builder) op(o Op)            { b.c.Ops = append(b.c.Ops, o) }
+func (b *builder) n() int             { return len(b.node) }
+func (b *builder) sweep()             { b.op(Op{K: "sweep"}) }
 func (b *builder) isLocal(r int) bool { return !b.isNil[r] && b.node[r] == local }
-func (b *builder) note(r int, node, path string, isNil bool) int {
+func (b *builder) note(node, path string, isNil bool) int {
 	b.node, b.path, b.isNil = append(b.node, node), append(b.path, path), append(b.isNil, isNil)
 	return b.n() - 1
 }
@@ -603,14 +608,14 @@ func (b *builder) note(r int, node, path string, isNil bool) int {
 func (b *builder) mk(node, path string, how int) int {
 	if d, ok := derived[path]; ok && how%3 == 2 && b.n() < 6 {
 		b.op(Op{K: "new", Ph: node, Ld: d[0]})
-		p := b.note(0, node, d[0], false)
+		p := b.note(node, d[0], false)
 		b.op(Op{K: "derive", R: p, Name: d[1]})
-		return b.note(0, node, path, false)
+		return b.note(node, path, false)
 	}
 	b.op(Op{K: "new", Ph: node, Ld: path})
-	return b.note(0, node, path, false)
+	return b.note(node, path, false)
 }
-func (b *builder) mkNil() int { b.op(Op{K: "nil"}); return b.note(0, "", "", true) }
+func (b *builder) mkNil() int { b.op(Op{K: "nil"}); return b.note("", "", true) }
 
 // twin builds a distinct object of the same address as r
 func (b *builder) twin(r int, how int) int {
@@ -624,7 +629,7 @@ func (b *builder) twin(r int, how int) int {
 	default:
 		b.op(Op{K: "new", Ph: b.node[r], Ld: b.path[r]})
 	}
-	return b.note(0, b.node[r], b.path[r], false)
+	return b.note(b.node[r], b.path[r], false)
 }
 
 // register makes sure a local reference has a registrant (stub < 0: a fresh one)
@@ -840,7 +845,7 @@ func malformed(rng *vh.RNG) Case {
 		b.op(Op{K: "unreg", R: 0})
 	case 5:
 		b.op(Op{K: "proto", R: 0, Via: "marshal"})
-		b.note(0, "", "", false)
+		b.note("", "", false)
 	}
 	b.op(Op{K: "get", R: 0})
 	b.resolve(a)
@@ -912,7 +917,7 @@ func main() {
 	}
 	out := vh.NewOut(f.Out, "equal", "From MV Require Import Lib.ListX C12.AddrModel C12.AddrRun C12.EqModel C12.EqRun.", "ecase", "emismatches", f.Seed,
 		"scripts over a table of 2..7 real *prc.ProcessId objects drawn from {own node, 2 remote nodes, empty node} x {/user/a, /user/b, /user/a/k, /, non-ASCII, empty} and nil, built by NewProcessId / Derivation from a parent / Clone / protobuf Marshal+Unmarshal / proto.Clone (equal addresses always as distinct objects, copies made before and after their source was resolved); 9 scenarios (two actors on one remote node with a per-node resolver as shared.go, one process registered under two local addresses, a gateway process shared by a local and a remote reference, separate processes, equal addresses, same path on another node, nil) x target cache state of A x of B in {never resolved, resolved, resolved then its process terminated} x order, all 162 combinations first, then random ones with a third/fourth reference and further transitions (lookup again, late copy, new registrant, termination); every reference is viewed (getters, URL, Clone, Derivation) and Equal is taken over EVERY ordered pair of the table in the initial state and after EVERY cache transition; a malformed stream of nil receivers; non-trivial = some sweep compares two references of different addresses whose caches hold one and the same process, or two references of equal addresses in different cache states; distinct by hash of the script")
-	out.PerShard = 90
+	out.PerShard = 70
 	rng := vh.NewRNG(f.Seed)
 	// every combination: scenario x state of A x state of B x order
 	for _, sc := range scenarios {
@@ -944,5 +949,4 @@ func main() {
 		record(out, &c, true)
 	}
 	out.Close()
-	_ = sort.Strings
 }
